@@ -277,7 +277,13 @@ func runProperty(w *World, o *checkOpts) *Report {
 		if p := w.pkgByPath(a.Pkg); p != nil {
 			a.Pkg = p.Pkg.Name()
 		}
-		obls, errs := w.cidrObligations(a)
+		var obls []*Obligation
+		var errs []string
+		if a.Kind == "string-table" {
+			obls, errs = w.stringTableObligations(a)
+		} else {
+			obls, errs = w.cidrObligations(a)
+		}
 		rep.Errors = append(rep.Errors, errs...)
 		fr := &FuncReport{Name: a.Pkg + ".tables (" + strings.Join(a.Tables, ", ") + ")"}
 		rep.Funcs = append(rep.Funcs, fr)
@@ -439,7 +445,7 @@ func runProperty(w *World, o *checkOpts) *Report {
 	searchDone := map[string]*ReplayResult{}
 	for _, j := range jobs {
 		ob := j.o
-		if ob.Cover || ob.Result.Status == "unsat" || ob.RawQuery != "" || o.fast || ob.Kind == "effect" {
+		if ob.Cover || ob.Result.Status == "unsat" || ob.RawQuery != "" || o.fast || ob.Kind == "effect" || ob.Result.Solver == "table-audit" {
 			continue
 		}
 		if ob.Result.Model == nil {
